@@ -113,8 +113,12 @@ def compare(trace_text, model_text):
             dead_worlds.add(w)
             continue
         if sorted(i['EV']) != sorted(m['EV']):
+            cls = ['events', 'ev:' + cmd]
+            strip = lambda evs: sorted(re.sub(r' locked=\d', '', e) for e in evs)
+            if strip(i['EV']) == strip(m['EV']):
+                cls.append('ev_locked')   # the events differ only in the lock state they were delivered under
             diffs.append({'idx': idx, 'world': w, 'cmd': cmd, 'args': args, 'impl': i['EV'], 'model': m['EV'],
-                          'classes': ['events', 'ev:' + cmd]})
+                          'classes': cls})
             dead_worlds.add(w)
     m = re.search(r'^CRASH (.*)$', trace_text, re.M)
     if m and ops:
